@@ -16,6 +16,12 @@ ACCEPTED = {
     ("mmap-staging", "effects"): "async keyed writers stage through plain writes only; sync keyed writers may also pre-allocate and map the temp file "
                                  "(same temp file, same rename; observable results are identical)",
 }
+# (sync function, component) -> reason: structural differences in *how* an error is routed that do not change what the caller sees
+ACCEPTED_HANDLING = {
+    "content::write::Writer::close": "the async close reports through a result channel: it tests is_err() and sends, where the sync close matches and returns "
+                                     "(both tolerate a failed persist only under an existence probe: decided under C03 e)",
+    "content::read::has_content": "exists-style predicate returning bool: the async flavour turns the metadata error into `false`, the sync flavour asks Path::exists()",
+}
 MMAP_ONLY = {("Fallocate", "handle", "TempIn(Join(Entry,'tmp'))"), ("WriteData", "handle", "Mmap(TempIn(Join(Entry,'tmp')))"),
              ("HandleMut", "handle", "TempIn(Join(Entry,'tmp'))"), ("Mmap", "handle", "TempIn(Join(Entry,'tmp'))"),
              ("MmapFlush", "handle", "Mmap(TempIn(Join(Entry,'tmp')))")}
@@ -172,13 +178,77 @@ def ext_calls(w, lf):
     return out
 
 
+def handling_sig(w, lf, _seen=None):
+    """How the function treats the error of each fallible call it makes: propagated with `?`/return, matched on
+    (conditionally tolerated), tested with is_ok/is_err, or discarded."""
+    from .c13 import sources, propagation_leaves
+    prog = w.prog
+    out = set()
+    prop = None
+    _seen = _seen or set()
+    if lf.path in _seen:
+        return out
+    _seen.add(lf.path)
+    local_adts = {a["path"] for a in prog.facts.items["adts"]}
+    for (b, blk, t) in sources(prog, lf):
+        g = prog.callee_fn(t)
+        if g is not None:
+            # crate-local plumbing: a paired or public callee is compared with its own sibling; a private unpaired
+            # helper is part of this function's behaviour
+            if not g.outer.reachable and not g.outer.impl_trait and sibling_of(short(g.path)) is None and not any(sibling_of(short(q)) == short(g.path) for q in prog.fns):
+                out |= handling_sig(w, g, _seen)
+            continue
+        if strip_refs(t.callee.self_ty or "") in local_adts:
+            continue     # provided trait method dispatching to a crate impl (e.g. AsyncReadExt::read on the crate's reader)
+        name = norm_callee(t.callee.path)
+        for rx, rep_ in _RTN:
+            name = rx.sub(rep_, name)
+        name = name.replace("RT::io::Async", "RT::Async").replace("poll_shutdown", "poll_close")
+        name = re.sub(r"^RT::AsyncRead::poll_read$", "std::io::Read::read", name)
+        name = re.sub(r"^RT::AsyncWrite::poll_(write|flush|close)$", r"std::io::Write::\1", name)
+        name = re.sub(r"^(std::iter::Iterator|RT::StreamExt)::next$", "next", name)
+        name = re.sub(r"^RT::task::spawn_blocking$", "spawn_blocking", name)
+        cls = "discarded"
+        if prop is None:
+            prop = propagation_leaves(w, lf)
+        if (b.path, blk.i) in prop:
+            cls = "propagated"
+        # explicit match / if-let on the result (not the `?` desugaring)
+        for bb in b.blocks:
+            if bb.cleanup:
+                continue
+            for st in bb.stmts:
+                if st.k == "assign" and st.rv.k == "discr":
+                    pl = st.rv.place
+                    ty = b.local_ty(pl.local)
+                    if ty.startswith("std::ops::ControlFlow<") or ty.startswith("std::task::Poll<"):
+                        continue
+                    for o in prog.resolve_lifted(b, pl.local, norm_path(pl), OKFLOW, at=bb.i):
+                        if o.kind == "call" and o.body is b and o.blk == blk.i and o.path in ((), (("await",),)):
+                            cls = "matched" if cls == "propagated" else "matched-and-dropped"
+            tt = bb.term
+            if tt.k == "call" and tt.callee is not None and tt.callee.path in (
+                    "std::result::Result::<T, E>::is_err", "std::result::Result::<T, E>::is_ok"):
+                for o in prog.resolve_op(b, tt.args[0], OKFLOW, bb.i):
+                    if o.kind == "call" and o.body is b and o.blk == blk.i:
+                        cls = "tested" if cls in ("propagated", "tested") else cls
+        out.add((name, cls))
+    return out
+
+
+def twin_name(p):
+    """Name of a crate function with its flavour suffix removed, so that siblings calling each other's twins compare equal."""
+    sp = sibling_of(p)
+    return sp if sp is not None else p
+
+
 def signature(w, fw, lf):
-    return {"effects": effect_sig(w, fw, lf), "errors": error_sig(w, lf), "roles": role_sig(w, lf)}
+    return {"effects": effect_sig(w, fw, lf), "errors": error_sig(w, lf), "roles": role_sig(w, lf), "handling": handling_sig(w, lf)}
 
 
 def diff_sig(a, b):
     out = []
-    for comp in ("effects", "errors", "roles"):
+    for comp in ("effects", "errors", "roles", "handling"):
         only_a = a[comp] - b[comp]
         only_b = b[comp] - a[comp]
         if only_a or only_b:
@@ -225,6 +295,9 @@ def check_sync_async(cfg, w, rep):
                 if (only_s - rs) or (only_a - ra):
                     rep.ob(cfg, "accepted-difference", key + ":mmap-staging", ACCEPTED[("mmap-staging", "effects")])
                 only_s, only_a = rs, ra
+            if comp == "handling" and short(p) in ACCEPTED_HANDLING:
+                rep.ob(cfg, "accepted-difference", key + ":handling", ACCEPTED_HANDLING[short(p)])
+                continue
             if comp == "roles":
                 only_s = {_twin_role(x) for x in only_s}
                 only_a = {_twin_role(x) for x in only_a}
